@@ -1,4 +1,5 @@
 import TarpcModel.Lemmas.ClientDue
+import TarpcModel.Lemmas.ClientParked
 import TarpcModel.Props.C05
 import TarpcModel.Props.C16Client
 /-!
@@ -265,6 +266,58 @@ theorem C05_rearm_late_witness_fixed :
     CEv.obs (.resolved 0 .deadline (clampNs + 10000000)) ∈ trace (initSys 1 1 1 true) c05RearmLateOps := by
   decide
 
+/-! ### the wake-up: a due timer never waits for an unrelated event -/
+
+/-- **A parked dispatch has its timers armed.**  In every reachable state (clock below `2^35` ms): if the dispatch is
+alive and has not been woken since its last poll (`dWoken = false`: it is parked), then no timer is due, the dispatch's
+waker is stored in the timer queue and the queue's `Sleep` is registered for an instant `t` with `now < t ≤ tick` for every
+remaining tick.  (A poll that returns `Pending` establishes this — `C05_dispatch_idle_not_late`; the calls, the handles
+and the transport do not touch the queue and can only wake the dispatch; when the clock reaches the `Sleep`, the timer
+wakes the dispatch.) -/
+theorem C05_parked_dispatch_armed (m bufCap tcap : Nat) (coupled : Bool) (ops : List COp)
+    (hT : advSum ops < 2 ^ 35 * nsPerMs) (c : Sys) (hc : c = ops.foldl applyOp (initSys m bufCap tcap coupled))
+    (hlive : c.s.dDropped = false ∧ c.s.done = none) (hparked : c.s.dWoken = false) :
+    ∀ d ∈ c.s.timers.all, c.now < d.whenMs * nsPerMs ∧ c.s.timers.waker = true ∧
+      ∃ t, c.s.timers.nextFire = some t ∧ c.now < t ∧ t ≤ d.whenMs * nsPerMs := by
+  subst hc
+  have hf := C16_client_flags
+  have hp0 := reach_not_poisoned hf.1 hf.2 m bufCap tcap coupled ops hT
+  have hi := parked_reach hf.1 m bufCap tcap coupled ops hT hlive.1 hlive.2 hp0 hparked
+  intro d hd
+  obtain ⟨hw, t, ht⟩ := hi.armed d hd
+  exact ⟨hi.notDue d hd, hw, t, ht⟩
+
+/-- **A due timer has woken the dispatch.**  In every reachable state (clock below `2^35` ms) with a live dispatch: if
+the timer of some in-flight request is due (`tick ≤ now`), the dispatch has been woken (`dWoken = true`) — it will be
+polled, and that poll handles every due timer (`C05_dispatch_idle_not_late`).  So a deadline never waits for an
+unrelated event (a response, a new call, the transport becoming writable) to be noticed. -/
+theorem C05_due_timer_wakes_dispatch (m bufCap tcap : Nat) (coupled : Bool) (ops : List COp)
+    (hT : advSum ops < 2 ^ 35 * nsPerMs) (c : Sys) (hc : c = ops.foldl applyOp (initSys m bufCap tcap coupled))
+    (hlive : c.s.dDropped = false ∧ c.s.done = none)
+    (en : Entry) (hen : en ∈ c.s.inflight) (w : Nat) (hw : c.s.timers.Has en.timerKey en.id w)
+    (hdue : w * nsPerMs ≤ c.now) : c.s.dWoken = true := by
+  cases hwk : c.s.dWoken with
+  | true => rfl
+  | false =>
+    exfalso
+    obtain ⟨d, hd, _, _, rfl⟩ := hw
+    have := (C05_parked_dispatch_armed m bufCap tcap coupled ops hT c hc hlive hwk d hd).1
+    omega
+
+/-- **… in terms of the deadline.**  If the millisecond tick of the deadline of an in-flight request (armed before its
+deadline) has been reached, the dispatch has been woken. -/
+theorem C05_deadline_passed_wakes_dispatch (m bufCap tcap : Nat) (coupled : Bool) (ops : List COp)
+    (hT : advSum ops < 2 ^ 35 * nsPerMs) (c : Sys) (hc : c = ops.foldl applyOp (initSys m bufCap tcap coupled))
+    (hlive : c.s.dDropped = false ∧ c.s.done = none)
+    (en : Entry) (hen : en ∈ c.s.inflight) (hpast : ceilMs en.ctx.deadline * nsPerMs ≤ c.now)
+    (harmed : en.dueAt ≤ en.ctx.deadline) : c.s.dWoken = true := by
+  have hi0 := inv_reach m bufCap tcap coupled ops
+  rw [← hc] at hi0
+  obtain ⟨w, hw, -⟩ := hi0.t.e2t en hen
+  obtain ⟨-, -, -, h4⟩ := hi0.t.due en hen w hw
+  exact C05_due_timer_wakes_dispatch m bufCap tcap coupled ops hT c hc hlive en hen w hw
+    (Nat.le_trans (tick_le_ceil h4 harmed) hpast)
+
 /-! ### the monitor form: false without the bound on the clock -/
 
 /-- the clock (ms) from which a one-year timeout lands in the top wheel level's slot 0 of the *next* rotation -/
@@ -348,6 +401,21 @@ example :
       [(0, some .deadline), (1, none)] ∧
     (pollDispatch (c05TwoOps.foldl applyOp (initSys 2 2 2 true)).s 6000000).timers.waker = true ∧
     (pollDispatch (c05TwoOps.foldl applyOp (initSys 2 2 2 true)).s 6000000).timers.nextFire = some 50000000 := by
+  decide
+
+/-- the wake-up: two calls are sent (the first poll of the dispatch wakes itself by arming timers), the second poll
+parks the dispatch (`dWoken = false`) with its waker in the queue and the `Sleep` at 5 ms; advancing the clock to 4 ms
+leaves it parked, advancing it to 6 ms wakes it -/
+def c05ParkOps : List COp :=
+  [.call 0 5000000 ⟨1, .given 1, true⟩ 7, .call 0 50000000 ⟨1, .given 1, true⟩ 8, .pollCall 0, .pollCall 1,
+   .pollDispatch, .pollDispatch]
+
+example :
+    (c05ParkOps.foldl applyOp (initSys 2 2 2 true)).s.dWoken = false ∧
+    (c05ParkOps.foldl applyOp (initSys 2 2 2 true)).s.timers.waker = true ∧
+    (c05ParkOps.foldl applyOp (initSys 2 2 2 true)).s.timers.nextFire = some 5000000 ∧
+    ((c05ParkOps ++ [COp.advance 4000000]).foldl applyOp (initSys 2 2 2 true)).s.dWoken = false ∧
+    ((c05ParkOps ++ [COp.advance 6000000]).foldl applyOp (initSys 2 2 2 true)).s.dWoken = true := by
   decide
 
 end TarpcModel.Client
